@@ -229,7 +229,8 @@ def explain(pattern, address, got):
                             address is matched (whole-length clause)
     wildcard_crosses_slash  accepted only if '*', '?' or '[!..]' may match
                             '/' (part-by-part clause)
-    prefix_and_crossing     needs both of the above
+    prefix_or_crossing      either of the two alone explains it
+    prefix_and_crossing     needs both of them
     bracket_trailing_minus  rejected only if the '-' before ']' is dropped
     false_accept / false_reject   anything else
     """
@@ -237,9 +238,13 @@ def explain(pattern, address, got):
     if ref is None or ref == got:
         return None
     if got:
-        if match(pattern, address, loose=True):
+        crossing = match(pattern, address, loose=True)
+        prefix = prefix_matches(pattern, address)
+        if crossing and prefix:
+            return 'prefix_or_crossing'
+        if crossing:
             return 'wildcard_crosses_slash'
-        if prefix_matches(pattern, address):
+        if prefix:
             return 'prefix_match_accepted'
         if prefix_matches(pattern, address, loose=True):
             return 'prefix_and_crossing'
